@@ -159,7 +159,8 @@ CHECKS["C05"] = dict(parts=[part("predefined-lookups", "pure", "TestC05", 20_000
 CHECKS["C19"] = dict(parts=[part("budgets-exact", "pure", "TestC19", 5000, 500_000)])
 CHECKS["C29"] = dict(parts=[part("id-sequence", "pure", "TestC29Seq", 2000, 100_000, race=True, death_is_violation=True, death_kind="data-race-or-crash/id-sequence", env={"GORACE": "halt_on_error=1"}),
                             part("store-linearizable", "pure", "TestC29Store", 2000, 200_000, race=True, death_is_violation=True, death_kind="data-race-or-crash/store", env={"GORACE": "halt_on_error=1"})])
-CHECKS["C18"] = dict(parts=[part("finished-stays-finished", "pure", "TestC18", 5000, 300_000, race=True, death_is_violation=True, death_kind="panic-or-data-race/transaction", env={"GORACE": "halt_on_error=1"})])
+CHECKS["C18"] = dict(parts=[part("finished-stays-finished", "pure", "TestC18", 5000, 300_000, race=True, death_is_violation=True, death_kind="panic-or-data-race/transaction", env={"GORACE": "halt_on_error=1"}),
+                            part("sleep-transaction", "cl", "TestC18Sleep", 1500, 100_000, race=True, death_is_violation=True, death_kind="panic-or-data-race/sleep-transaction", env={"GORACE": "halt_on_error=1"})])
 _PURE_NOTE = "Pure library code called in-process; no hooks needed. Built with go1.26.8."
 META.update({
     "C05": dict(
@@ -176,4 +177,11 @@ META.update({
         text="Exploration: the ID sequence against a counter model exhaustively for all small ranges, ranges ending at 0xFFFF and the full range, and concurrently (2-8 goroutines, race-detector build) by comparing the multiset of results with the model's first N outputs; the transaction store and ClientState by recording generated concurrent programs with call/return times and deciding linearizability against an atomic map / register with porcupine.",
         note=_PURE_NOTE + " Real goroutines on real cores: which overlaps occur is up to the scheduler; the race detector reports unsynchronised accesses regardless.",
         technique="model-based testing (exhaustive small ranges) + concurrent PBT with a linearizability checker (porcupine) under the race detector"),
+})
+CHECKS["C26"] = dict(parts=[part("interop", "e2e", "TestC26", 2000, 150_000)])
+META.update({
+    "C26": dict(
+        text="Exploration: generated API-call scripts (3-25 steps: connect with/without will and auth, register, subscribe of every form, publish at QoS -1..2 on every topic form, unsubscribe, ping, repeated sleep cycles with broker publishes injected during the sleep, reconnect, disconnect) run with the real client against a real gateway session and a conforming broker model over a lossless in-memory link; oracle: every call returns nil, subscriptions and published messages are at the broker exactly as requested, and every injected broker message that matches a live subscription (single messages and bursts, also on not-yet-registered topics under a wildcard) runs a handler exactly once with the broker's topic.",
+        note="Real client and real gateway session wired together in one testing/synctest bubble (verif-tagged hooks for dial and session start); the broker model (harness/e2e) and the reference matcher are trusted. Sleeps stay below RetryDelay so the C11 known finding does not interfere.",
+        technique="model-based end-to-end PBT (API-call sequences) against a broker reference model; virtual time"),
 })
